@@ -9,6 +9,9 @@ def local_edges(F, f):
         g = F.resolve_callee(t["callee"])
         if g is not None:
             out.append((g, t["span"]))
+        else:
+            for g in F.generic_candidates(t["callee"]):
+                out.append((g, t["span"]))
     for b in f.blocks:
         for st in b["stmts"]:
             if st["k"] == "assign" and st["rv"]["k"] == "aggregate" and st["rv"].get("agg") == "closure":
